@@ -122,12 +122,17 @@ def run_impl(ops):
             exc = type(e).__name__
         except Exception as e:
             exc = "Other:" + type(e).__name__
-        pts = []
-        for p in PROBES:
-            a = t.apply_transform(p)
-            r = t.reverse_transform(p)
-            pts.append(([float(v) for v in a], [float(v) for v in r]))
-        out.append(dict(exc=exc, pts=pts))
+        # the probe order alternates, so that the first point mapped after an operation is the last one mapped before it
+        # (a mapping must depend on the current transform only, never on what was mapped before)
+        order = list(range(len(PROBES)))
+        if len(out) % 2 == 1:
+            order.reverse()
+        got = {}
+        for j in order:
+            a = t.apply_transform(PROBES[j])
+            r = t.reverse_transform(PROBES[j])
+            got[j] = ([float(v) for v in a], [float(v) for v in r])
+        out.append(dict(exc=exc, pts=[got[j] for j in range(len(PROBES))]))
     return out
 
 
